@@ -103,7 +103,11 @@ def include_part(chk):
         pick = random.Random(chk.seed + 17).sample(scs, min(len(scs), 160 if chk.tier == 'quick' else 1500))
         # every configuration in which an included file includes the main file again goes through the command line too (how the main
         # file's path is spelled must not decide whether the second inclusion is noticed)
-        pick += [s for s in scs if s.get('backedge') and s not in pick][:200 if chk.tier == 'quick' else 5000]
+        # (the configurations that are rejected ONLY because of that second inclusion: their twin without the back edge is accepted)
+        twin_ok = {(str(s['incs']), str(s['place']), str(s['passed']), s['dup']) for s in scs if not s.get('backedge') and not s.get('skipmain') and s['st'] == 'ok'}
+        cyc = [s for s in scs if s.get('backedge') and s['st'] == 'twice' and (str(s['incs']), str(s['place']), str(s['passed']), s['dup']) in twin_ok]
+        chk.notes['backedge_only_cycles_through_cli'] = min(len(cyc), 400 if chk.tier == 'quick' else 5000)
+        pick += cyc[:400 if chk.tier == 'quick' else 5000]
         for sc, r in zip(pick, runner.pmap(eval_include_cli, pick)):
             chk.traces += 1
             if r is not None:
